@@ -34,4 +34,9 @@ META = {
   "text": "Generated idle periods (relative to the generated ticker periods, including keep-alive-long ones) and restart chains exercise ticker-, keep-alive- and shutdown-driven checkpoint flushes; the complete ordered history of stored offsets is checked against the reference command boundaries. Exploration: timing is generated, the scheduler is not owned.",
   "note": "The initial 'none yet' marker (-1 written by start-up on an empty target) is tolerated exactly as the property states.",
  },
+ "C03": {
+  "technique": "property-based testing (rapid): generated datasets written by an independent RDB writer in every encoding, replayed by the real RedisOutput into an interpreting double; round-trip oracle (dataset -> RDB -> tool -> target keyspace == dataset) plus byte-exact RESTORE payload check",
+  "text": "The generator owns the encoding of every value, so each of the ~25 on-disk encodings and every integer width is produced deliberately and reaches the tool's loader, splitter, RESTORE builder and command expander; the double executes what the tool sends with Redis semantics and the final keyspace is compared with the dataset. Exploration over an unbounded input space.",
+  "note": "Trusts ref/rdbgen and the double's command semantics. Not compared (documented as not replayable): consumers without pending entries, consumer seen/active time, IDMP state, entries_read of v1 streams (estimated by the tool). Listpacks with an 'unknown' element count are not generated (the property quantifies unknown length over ziplists).",
+ },
 }
